@@ -122,9 +122,12 @@ class HTTPReader:
             if cl_string:
                 try:
                     content_length = int(cl_string)
-                    http_body = http_message.rfile.read(content_length)
                 except TypeError:
                     http_body = http_message.rfile.read()
+                else:
+                    if content_length < 0:
+                        raise ValueError(f'invalid content-length "{cl_string}"')
+                    http_body = http_message.rfile.read(content_length)
 
         # if we get compressed content then we check against server setting
         # if it matches continue and decompress
